@@ -412,7 +412,7 @@ C05_NORMALIZED_PARAMS = {
 def _c05_extra(ck, w):
     from .core import walk, peel, callee, pat_bindings
     from .engines import hirq
-    ck.rule('C05.N1', 'normalisation discipline: in the emulated-field operations that compare, expose or multiply representations, every listed AssignedField '
+    ck.rule('C05.M2', 'normalisation discipline: in the emulated-field operations that compare, expose or multiply representations, every listed AssignedField '
                       'parameter is passed through FieldChip::normalize and its limbs are never read directly (two representations of one residue must be '
                       'treated identically)')
     for nid, names in C05_NORMALIZED_PARAMS.items():
@@ -432,7 +432,7 @@ def _c05_extra(ck, w):
                     direct.add(r['i'])
         for nm in names:
             i = params.get(nm)
-            ck.record('C05.N1', f'{nid}|{nm}', i is not None and i in normed and i not in direct, f'`{nm}` is normalised before use',
+            ck.record('C05.M2', f'{nid}|{nm}', i is not None and i in normed and i not in direct, f'`{nm}` is normalised before use',
                       f'{nid}: parameter `{nm}` is {"not passed to normalize" if i not in normed else "read limb-wise without normalisation"}: '
                       f'a non-canonical representation of the same residue is treated as a different value', hirq.fn_loc(f))
 
